@@ -1,7 +1,7 @@
 package rules
 
 // Positive controls for C20: seeded edits (overlay) that must make the named rule fire.
-// (44 such edits were exercised while building the rules and all fired; 21 are kept to bound the thorough tier.)
+// (44 such edits were exercised while building the rules and all fired; 21 are kept to bound the thorough tier; 4 added for C20.sigclose.)
 
 func init() {
 	const stack = "internal/ctxstack/ctxstack.go"
@@ -97,6 +97,24 @@ func init() {
 				default:
 				}`, `				interruptChan <- struct{}{}`, "blocking send")
 	c("c20-sig-unbuffered-interrupt-chan", "C20.sig", cli, `interruptChan := make(chan struct{}, 1)`, `interruptChan := make(chan struct{})`, "InterruptChan")
+	// ---- C20.sigclose
+	c("c20-sigclose-defer-lifo", "C20.sigclose", cli, `		defer func() {
+			signal.Stop(interruptSignalChan)
+			close(interruptSignalChan)`, `		defer signal.Stop(interruptSignalChan)
+		defer func() {
+			close(interruptSignalChan)`, "close signal channel")
+	c("c20-sigclose-reset-is-not-stop", "C20.sigclose", cli, `			signal.Stop(interruptSignalChan)
+`, `			signal.Reset(os.Interrupt)
+`, "close signal channel")
+	c("c20-sigclose-foreign-close", "C20.sigclose", cli, `	close(o.closeChan)
+`, `	close(o.closeChan)
+	close(o.InterruptChan())
+`, "outside the bridge")
+	c("c20-sigclose-send-after-close", "C20.sigclose", cli, `			case <-closeChan:
+				return
+`, `			case <-closeChan:
+				close(interruptChan)
+`, "forward channel")
 	// ---- C20.repl
 	c("c20-repl-fatal-on-cancel", "C20.repl", "pkg/interp/repl.jq", `  if .error | _is_context_canceled_error then empty
   else _fatal_error(_exit_code_expr_error)
